@@ -76,6 +76,29 @@ fn console_vxw_c01() {
         }
     }
 
+    // ---- every shape of a path that CONTAINS ".." (whole segment, glued to other text, encoded separators after it, at the
+    //      start / end, three dots), on attributed and fully authorized connections: 404, zero bytes upstream
+    let dotdot_paths = [
+        "/machine/../admin", "/machine/..", "/..", "/../machine", "/machine/..%2f..%2fadmin", "/machine/..%5Cadmin", "/machine/..;/admin",
+        "/machine/...//admin", "/machine/a..b", "/machine/..hidden", "/machine/x..", "/machine/x../y", "/..machine", "/machine/.../x",
+        "/metadata/instance/..%2fidentity", "/machine/%2e./..x",
+    ];
+    for cfg in [None, Some(("enforce", "allow", 3u8)), Some(("audit", "allow", 3u8)), Some(("disabled", "allow", 3u8))] {
+        h.set_rules(&|| cfg.map(|(m, d, k)| vx_rules(m, d, k, "root")));
+        for (ip, port) in [("168.63.129.16", 80u16), ("169.254.169.254", 80), ("168.63.129.16", 32526), ("10.0.0.4", 80)] {
+            for path in dotdot_paths.iter() {
+                for (method, q, body) in [("GET", "?comp=goalstate", ReqBody::None), ("POST", "", ReqBody::Len(b"0123456789".to_vec()))] {
+                    let target = format!("{}{}", path, q);
+                    let wire = vx_request_bytes(method, &target, &[("Host".to_string(), ip.to_string())], &body);
+                    let (r, bytes, reqs) = h.one(&h.ps, &Attribution::full(true, ip, port), wire, false);
+                    check(&mut n,
+                        serde_json::json!({"attributed": true, "elevated": true, "destination": format!("{}:{}", ip, port), "rules": cfg.map(|(m, d, k)| format!("{}/{}/kind{}", m, d, k)), "request": format!("{} {}", method, target), "path_contains_dotdot": true}),
+                        &[(true, 404)], &r, bytes, &reqs);
+                }
+            }
+        }
+    }
+
     // ---- connections that are not (fully) attributed; the upstream sender IS connected where the harness builds the context,
     //      so a handler that forgot the check would really relay
     let variants: Vec<(&str, Attribution)> = vec![
